@@ -70,8 +70,15 @@ class World:
                 if (b, a) not in self.prefs:
                     return False          # refused without reason
         elif op == 4:    # derive a from b
-            if a == b or a == 4 or b == 4 or self.isa(b, a) or self.isa(a, b):
+            if a == b or a == 4 or b == 4:
                 return True
+            if self.isa(b, a):              # would close a cycle: must be refused, hierarchy unchanged
+                try:
+                    SWAP(self.h, DERIVE, self.key(a), self.key(b))
+                except Exception:
+                    return True
+                return False
+            # a redundant edge (a already reaches b indirectly) is still a direct parent edge
             SWAP(self.h, DERIVE, self.key(a), self.key(b)); self.edges.add((a, b))
         elif op == 5:    # underive
             if (a, b) in self.edges:
@@ -139,6 +146,31 @@ def history_spec(n_ops, timeout, first_op=None, perm=None):
                       "24 role permutations (= iteration orders of the method map)", meta={"kind": "history"})
 
 
+def hierarchy_spec(n_ops, timeout, first):
+    """histories of derive/underive only (every ordered pair of 3 tags), methods installed on every tag beforehand:
+    after every step each tag is called, and the hierarchy's four views are compared with the edge-set model"""
+    o0, a0, b0 = first
+    args = ", ".join(f"o{j}: int, a{j}: int, b{j}: int" for j in range(n_ops))
+    pre = [f"o0 == {o0}", f"a0 == {a0}", f"b0 == {b0}"]
+    for j in range(1, n_ops):
+        pre += [f"o{j} in (4, 5)", f"0 <= a{j} < 3", f"0 <= b{j} < 3", f"a{j} != b{j}"]
+    ops = ", ".join(f"(o{j}, a{j}, b{j})" for j in range(n_ops))
+    body = f'''    w = World(0)
+    for k in (0, 1, 2, 4):
+        w.apply(0, k, 0)
+    for (o, a, b) in [{ops}]:
+        if o == 5 and (a, b) not in w.edges:
+            SWAP(w.h, UNDERIVE, w.key(a), w.key(b))      # removing an edge that is not there changes nothing
+        elif not w.apply(o, a, b):
+            return False
+    # checked once at the end: every shorter history is the prefix of one padded with no-op underives
+    return w.check_all_calls() and w.hierarchy_consistent()'''
+    return Spec(f"hierarchy-history/len={n_ops}/first={'derive' if o0 == 4 else 'underive'}-{a0}-{b0}",
+                harness(args, body, pre=pre, module_code=MODULE, warm=[]), timeout=timeout,
+                bound=f"{n_ops} derive/underive operations over every ordered pair of 3 tags (redundant edges, refused cycles and "
+                      "absent edges included); methods on all 3 tags + :default", meta={"kind": "hierarchy-history"})
+
+
 SCENARIO = r'''
 def build(perm, variant):
     """three unrelated-or-related candidate methods for one dispatch value; `variant` picks how they relate"""
@@ -182,7 +214,9 @@ def run(rep, tier, seed):
     n = 2 if quick else 3
     perms = [0, 9, 14, 23] if quick else [0, 3, 7, 9, 14, 17, 20, 23]
     specs += [history_spec(n, to, first_op=f, perm=p) for f in range(7) for p in (perms[:2] if quick else perms)]
-    rep.bounds = {"history length": n, "dispatch values": "3 namespaced keywords + :default in histories, 4 in the three-candidate scenarios", "iteration orders": "24 role permutations"}
+    hn = 3 if quick else 4
+    specs += [hierarchy_spec(hn, to, (4, a, b)) for a in range(3) for b in range(3) if a != b]
+    rep.bounds = {"history length": n, "derive/underive-only history length": hn, "dispatch values": "3 namespaced keywords + :default in histories, 4 in the three-candidate scenarios", "iteration orders": "24 role permutations"}
     rep.outside = ["Python classes as dispatch values", "longer histories", "vectors of tags"]
     rep.assumptions += ["keyword hashes are fixed (PYTHONHASHSEED=0), so a role permutation determines the method map's iteration order"]
     rep.trusted += ["crosshair-tool 0.0.110 + z3", "from-scratch resolution oracle in vlib/props/c18.py"]
